@@ -191,6 +191,39 @@ def run_driver(cases, workdir, tag="cases", sub="gen", timeout=3000):
     return res
 
 
+def run_batch(cases, workdir, tag, real=True, shim=False, timeout=3000, extra_fields=None):
+    """driver batch: generator + compile against the real crates (check.jsonl) and/or run against the
+    recording shim (obs.jsonl). Returns the gen results with 'compile'/'diagnostics'/'obs' merged in."""
+    os.makedirs(workdir, exist_ok=True)
+    cin = os.path.join(workdir, tag + ".jsonl")
+    outdir = os.path.join(CACHE, "batch", tag + "_" + os.path.basename(workdir))
+    sh(["rm", "-rf", outdir])
+    os.makedirs(outdir, exist_ok=True)
+    with open(cin, "w") as f:
+        for i, c in enumerate(cases):
+            d = dict(c)
+            if extra_fields:
+                d.update(extra_fields[i])
+            f.write(json.dumps(d, ensure_ascii=False) + "\n")
+    cmd = [DRIVER, "batch", cin, outdir] + (["--real"] if real else []) + (["--shim"] if shim else [])
+    rc, out = sh(cmd, timeout=timeout, env={"CARGO_NET_OFFLINE": "true"})
+    if rc != 0:
+        raise RuntimeError("driver batch failed: " + out[-3000:])
+    res = [json.loads(l) for l in open(os.path.join(outdir, "gen.jsonl"))]
+    if real:
+        for r, l in zip(res, open(os.path.join(outdir, "check.jsonl"))):
+            c = json.loads(l)
+            r["compile"] = c.get("compile")
+            r["diagnostics"] = c.get("diagnostics")
+    if shim:
+        for r, l in zip(res, open(os.path.join(outdir, "obs.jsonl"))):
+            r["obs"] = json.loads(l)
+    summary = json.load(open(os.path.join(outdir, "batch_summary.json")))
+    for r in res:
+        r["batch_summary_ref"] = outdir
+    return res, summary
+
+
 # ---------------------------------------------------------------------------------------
 # Coq case evaluation
 # ---------------------------------------------------------------------------------------
